@@ -21,6 +21,9 @@ import sys
 import traceback
 
 HERE = os.path.dirname(os.path.dirname(os.path.abspath(__file__)))
+import re
+TRACE_CLAUSE = re.compile(r"\b(n_events|n_calls|call_fn|call_args|call_result|call_kwargs|n_callees|callee_arg|callee_result|"
+                          r"all_calls_from_callee|all_getattr_on)\b")
 
 
 # ---------------------------------------------------------------------------------------------
@@ -146,6 +149,7 @@ class Env(object):
             mod = importlib.import_module("spec." + m)
             if hasattr(mod, "C"):
                 mod.C = Cc
+            self.ns.update({k: v for k, v in vars(mod).items() if callable(v) and not k.startswith("_")})
         self.ns["C"] = Cc
         self.ns["ClosedFile"] = stream_mod.ClosedFile
         self.ns["errno"] = errno_mod
@@ -206,8 +210,14 @@ def adapt(sort, value):
 
 def candidates(env, sort, pname, contract):
     rng = env.rng
+    if contract is not None:
+        special = env.harness.candidates_for(contract.target, pname, sort, rng)
+        if special is not None:
+            return special
     if pname == "count" and sort == "int":
         return [0, 1, 5, 255, 63999, 64000, 64001, 100000, -1]
+    if pname == "data" and sort == "bytes" and contract is not None and "PipeStream" in contract.target:
+        return [p for p in env.harness.payloads(rng) if len(p) <= 3001]      # stay below the smallest OS pipe capacity
     if pname == "data" and sort == "bytes" and contract is not None and ("stream.py" in contract.target or "channel.py" in contract.target):
         return env.harness.payloads(rng)
     if sort == "val" or sort == "any":
@@ -291,6 +301,8 @@ def run_case(env, contract, beh, func, mod, assignment, ghost):
     for cname, (expr, props) in beh.ensures.items():
         if env.job.get("property") and env.job["property"] not in props:
             continue          # clause needed by other properties only: checked under their checks
+        if TRACE_CLAUSE.search(expr):
+            continue          # about ghost events: not observable natively without instrumentation
         code, olds = env.split_old(expr)
         oldvals = {"__old%d" % i: snapshot(env.ev(o, scope, mod)) for i, o in enumerate(olds)}
         checks.append((cname, expr, code, oldvals))
@@ -375,6 +387,7 @@ def check_target(env, target, bname, budget, given=None):
         except Exception as e:
             out.setdefault("errors", []).append("%s: %s" % (type(e).__name__, traceback.format_exc()[-400:]))
             continue
+        finally_cleanup(env, case)
         if fails is None:
             continue
         out["satisfying"] += 1
@@ -388,6 +401,14 @@ def check_target(env, target, bname, budget, given=None):
                 out["failures"].append(f)
             out["n_failures"] = out.get("n_failures", 0) + 1
     return out
+
+
+def finally_cleanup(env, case):
+    for v in case["assignment"].values():
+        try:
+            env.harness.cleanup(v)
+        except Exception:
+            pass
 
 
 def to_literal(d):
